@@ -140,7 +140,10 @@ impl TypeDependencyGraph {
         }
 
         output.push_str("\n🏗️  Discovered Types:\n");
-        for (type_name, struct_info) in &self.resolved_types {
+        // Sorted by name so the report does not depend on HashMap iteration order
+        let mut resolved: Vec<(&String, &StructInfo)> = self.resolved_types.iter().collect();
+        resolved.sort_by(|a, b| a.0.cmp(b.0));
+        for (type_name, struct_info) in resolved {
             let type_kind = if struct_info.is_enum {
                 "enum"
             } else {
@@ -157,7 +160,8 @@ impl TypeDependencyGraph {
             // Show dependencies
             if let Some(deps) = self.dependencies.get(type_name) {
                 if !deps.is_empty() {
-                    let deps_list: Vec<String> = deps.iter().cloned().collect();
+                    let mut deps_list: Vec<String> = deps.iter().cloned().collect();
+                    deps_list.sort();
                     output.push_str(&format!("  └─ depends on: {}\n", deps_list.join(", ")));
                 }
             }
@@ -165,7 +169,9 @@ impl TypeDependencyGraph {
 
         // Show dependency chains
         output.push_str("\n🔗 Dependency Chains:\n");
-        for type_name in self.resolved_types.keys() {
+        let mut chain_roots: Vec<&String> = self.resolved_types.keys().collect();
+        chain_roots.sort();
+        for type_name in chain_roots {
             self.show_dependency_chain(type_name, &mut output, 0);
         }
 
@@ -185,6 +191,8 @@ impl TypeDependencyGraph {
         output.push_str(&format!("{}├─ {}\n", indent_str, type_name));
 
         if let Some(deps) = self.dependencies.get(type_name) {
+            let mut deps: Vec<&String> = deps.iter().collect();
+            deps.sort();
             for dep in deps {
                 if indent < 3 {
                     // Prevent too deep recursion in visualization
@@ -210,8 +218,10 @@ impl TypeDependencyGraph {
             ));
         }
 
-        // Add type nodes
-        for type_name in self.resolved_types.keys() {
+        // Add type nodes (sorted so the graph text is reproducible)
+        let mut type_nodes: Vec<&String> = self.resolved_types.keys().collect();
+        type_nodes.sort();
+        for type_name in type_nodes {
             output.push_str(&format!("  \"{}\" [color=green];\n", type_name));
         }
 
@@ -234,7 +244,11 @@ impl TypeDependencyGraph {
         }
 
         // Add type dependency edges
-        for (type_name, deps) in &self.dependencies {
+        let mut edges: Vec<(&String, &HashSet<String>)> = self.dependencies.iter().collect();
+        edges.sort_by(|a, b| a.0.cmp(b.0));
+        for (type_name, deps) in edges {
+            let mut deps: Vec<&String> = deps.iter().collect();
+            deps.sort();
             for dep in deps {
                 output.push_str(&format!("  \"{}\" -> \"{}\";\n", type_name, dep));
             }
